@@ -82,8 +82,9 @@ type BlockPipeline struct {
 	started         atomic.Bool
 	stopped         atomic.Bool
 	wg              sync.WaitGroup
-	mu              sync.Mutex   // protects Start/Stop
-	submitMu        sync.RWMutex // protects Submit against concurrent Stop
+	mu              sync.Mutex    // protects Start/Stop
+	submitMu        sync.RWMutex  // protects Submit against concurrent Stop
+	submitSem       chan struct{} // serialises sequence allocation with the enqueue (context-aware lock)
 }
 
 // NewBlockPipeline creates a new BlockPipeline using functional options.
@@ -131,6 +132,7 @@ func (p *BlockPipeline) Start(ctx context.Context) error {
 	// Create channels
 	bufSize := p.config.PrefetchBufferSize
 	p.submitChan = make(chan *BlockItem, bufSize)
+	p.submitSem = make(chan struct{}, 1)
 	p.decodedChan = make(chan *BlockItem, bufSize)
 	p.resultsChan = make(chan *BlockItem, bufSize)
 	p.errorsChan = make(chan error, bufSize)
@@ -227,22 +229,31 @@ func (p *BlockPipeline) Submit(ctx context.Context, blockType uint, rawCbor []by
 		return ErrPipelineStopped
 	}
 
-	// Allocate sequence number only once, then send.
-	// We use a single blocking select to avoid sequence gaps that would occur
-	// if we allocated in a non-blocking attempt that failed.
-	item := NewBlockItem(blockType, rawCbor, tip, p.sequenceCounter.Add(1)-1)
+	// Serialise "allocate a sequence number + enqueue": the number is only
+	// consumed when the item was actually handed to the decode stage, so a
+	// submission that gives up (context expired, pipeline stopped) leaves no
+	// gap for the apply stage to wait on.
+	select {
+	case p.submitSem <- struct{}{}:
+	case <-ctx.Done():
+		return ctx.Err()
+	case <-p.ctx.Done():
+		return ErrPipelineStopped
+	}
+	defer func() { <-p.submitSem }()
+
+	item := NewBlockItem(blockType, rawCbor, tip, p.sequenceCounter.Load())
 
 	// Count the item before it becomes visible to the workers; it stays
 	// counted until the apply stage is done with it (see PendingCount).
 	p.unfinished.Add(1)
 	select {
 	case p.submitChan <- item:
+		p.sequenceCounter.Add(1)
 		p.metrics.RecordSubmit()
 		return nil
 	case <-ctx.Done():
 		p.unfinished.Add(-1)
-		// Context cancelled while waiting - sequence gap is acceptable
-		// because this typically means shutdown.
 		return ctx.Err()
 	case <-p.ctx.Done():
 		p.unfinished.Add(-1)
